@@ -258,6 +258,15 @@ def dpor_extra_spaces(which):
                          "progs": dporcheck.space2(3, ["park", "ld", "st"], ["ld", "st"], ["x"], ["m"], 2, 1, unpark_to=(1, 2, 3))},
         "yield": lambda: {"label": "dporYield", "n": 3, "invariants": False, "progs": dporcheck.space(3, ["ld", "st", "csld", "yield"], ["x", "y"], ["m"], 2, 0)},
         "try": lambda: {"label": "dporTry", "n": 3, "invariants": False, "progs": dporcheck.space(3, ["ld", "st", "csld", "try"], ["x"], ["m"], 2, 0)},
+        # exploration controls: stop_exploring regions around stores (loads inside a region return loom's default candidate),
+        # reference = every decision outside a region is taken, none inside (Dpor.tla RefFrom with frozen scheduling)
+        "rg": lambda: {"label": "dporRg", "n": 3, "progs": dporcheck.space(3, ["ld", "st", "rg", "rg1"], ["x", "y"], ["m"], 2, 0)},
+        "rg3": lambda: {"label": "dporRg3", "n": 3, "progs": dporcheck.space(3, ["ld", "st", "rg1"], ["x", "y"], ["m"], 3, 0)},
+        # regions whose thread may block inside (only main has regions: a second stop_exploring while frozen is a usage error)
+        "rgcs": lambda: {"label": "dporRgCs", "n": 3, "progs": dporcheck.space2(3, ["ld", "csst", "st"], ["rgcs", "rg1", "ld"], ["x"], ["m"], 1, 2)},
+        "rgcs2": lambda: {"label": "dporRgCs2", "n": 3, "progs": dporcheck.space2(3, ["ld", "csst", "st"], ["rgcs", "rg1", "ld"], ["x"], ["m"], 2, 2)},
+        # skip_branch freezes every later decision, loads included: schedule sets only
+        "skip": lambda: {"label": "dporSkip", "n": 3, "results": False, "progs": dporcheck.space(3, ["ld", "st", "skip"], ["x", "y"], ["m"], 2, 0)},
     }
     return [S[w]() for w in which]
 
@@ -825,6 +834,9 @@ def C19(ctx):
                 ctx.violation("limit-arithmetic", p, {"kind": kind, "N_m_c_d": list(val), "expected_iterations": exp[val][0],
                                                       "ran": r["iters"], "end": r["end"]}, {"msg": r["msg"]})
     enginecheck.run_engine(ctx, ["ExploreMC_hash_b99.cfg", "ExploreMC_hash_b2.cfg"])
+    # (c) "decisions outside the region are still fully explored": Dpor.tla with the control calls, whole program spaces
+    dpor_space(ctx, [None], ("C01",), quick_sample=150, thorough_sample=1500,
+               spaces=dpor_extra_spaces(["rg", "rg3", "rgcs", "skip"] + (["rgcs2"] if ctx.tier == "thorough" else [])))
     ctx.cov["programs"] += len(items) + len(lim_items)
     ctx.cov["evaluations"] += len(items) + len(lim_items)
     ctx.cov["distinct_nontrivial"] += nontriv
